@@ -25,7 +25,7 @@ Qed.
 (* (2) exception contracts are only ever removed together with that replacement, and only existing contracts are removed *)
 Theorem excs_remove_replaced ty f l :
   In (PRemove l) (mutations_excs ty f) ->
-  (exists c, In c (f_contracts f) /\ exc_cat c = true /\ c_line c <= l <= c_line c + (c_last c - c_line c)) /\
+  (exists c, In c (f_contracts f) /\ exc_cat c = true /\ c_inherited c = false /\ c_line c <= l <= c_line c + (c_last c - c_line c)) /\
   In (PInsertC (get_insert_line f) CRaises (declared_excs f ++ f_new_excs f) (f_col f)) (mutations_excs ty f).
 Proof.
   unfold mutations_excs. destruct (f_new_excs f) as [|e es] eqn:E.
@@ -34,6 +34,7 @@ Proof.
   - destruct (negb (t_raises ty)); [intros []|]. intro H. split.
     + apply in_app_or in H. destruct H as [H|[H|[]]]; [|discriminate].
       apply in_flat_map in H. destruct H as [c [Hc Hin]]. exists c. destruct (exc_cat c) eqn:Ec; [|destruct Hin].
+      destruct (c_inherited c) eqn:Ei; [destruct Hin|]. cbn [negb andb] in Hin.
       apply in_app_or in Hin. destruct Hin as [Hin|Hin].
       * apply in_remove_contract in Hin. destruct Hin as [l' [El Hl]]. inversion El; subst l'. auto.
       * destruct (cat_eqb (c_cat c) CPure); [destruct Hin as [Hin|[]]; discriminate|destruct Hin].
@@ -42,7 +43,7 @@ Qed.
 (* (3) the same for markers: the new has contract lists every marker declared before (quoted), then the new ones *)
 Theorem markers_grow q ty f acc :
   f_new_markers f <> [] -> t_has ty = true ->
-  In (PInsertC (get_insert_line f) CHas (map (fun a => (q ++ a ++ q)%string) (declared_markers f ++ f_new_markers f)) (f_col f)) (collect_markers q ty f acc).
+  In (PInsertC (get_insert_line f) CHas (map (quoted q) (declared_markers f ++ f_new_markers f)) (f_col f)) (collect_markers q ty f acc).
 Proof.
   intros Hn Ht. unfold collect_markers. rewrite Ht. cbn [negb orb]. destruct (f_new_markers f) as [|e es] eqn:E; [contradiction|].
   apply in_or_app. right. left. reflexivity.
@@ -53,23 +54,24 @@ Proof.
 Qed.
 Lemma markers_fold_remove il col cs acc l :
   In (PRemove l) (fold_left (markers_step il col) cs acc) ->
-  In (PRemove l) acc \/ exists c, In c cs /\ has_cat c = true /\ c_line c <= l <= c_line c + (c_last c - c_line c).
+  In (PRemove l) acc \/ exists c, In c cs /\ has_cat c = true /\ c_inherited c = false /\ c_line c <= l <= c_line c + (c_last c - c_line c).
 Proof.
   revert acc. induction cs as [|c t IH]; intros acc H; [left; exact H|]. cbn [fold_left] in H.
   apply IH in H. destruct H as [H|[c' [Hin Hc]]]; [|right; exists c'; split; [right; exact Hin|exact Hc]].
   unfold markers_step in H. destruct (has_cat c) eqn:Ec; cbn [negb] in H; [|left; exact H].
+  destruct (c_inherited c) eqn:Ei; [left; exact H|].
   destruct (existsb (pmut_eqb (PRemove (c_line c))) acc).
   - left. apply in_remove_first in H. exact H.
   - apply in_app_or in H. destruct H as [H|H]; [left; exact H|]. apply in_app_or in H. destruct H as [H|H].
-    + right. exists c. split; [left; reflexivity|]. split; [exact Ec|].
+    + right. exists c. split; [left; reflexivity|]. split; [exact Ec|]. split; [exact Ei|].
       apply in_remove_contract in H. destruct H as [l' [El Hl]]. inversion El; subst l'. exact Hl.
     + destruct (cat_eqb (c_cat c) CPure); [destruct H as [H|[]]; discriminate|destruct H].
 Qed.
 (* a has / pure contract is only removed together with its replacement; only lines of existing contracts are removed *)
 Theorem markers_remove_replaced q ty f acc l :
   In (PRemove l) (collect_markers q ty f acc) -> ~ In (PRemove l) acc ->
-  (exists c, In c (f_contracts f) /\ has_cat c = true /\ c_line c <= l <= c_line c + (c_last c - c_line c)) /\
-  In (PInsertC (get_insert_line f) CHas (map (fun a => (q ++ a ++ q)%string) (declared_markers f ++ f_new_markers f)) (f_col f)) (collect_markers q ty f acc).
+  (exists c, In c (f_contracts f) /\ has_cat c = true /\ c_inherited c = false /\ c_line c <= l <= c_line c + (c_last c - c_line c)) /\
+  In (PInsertC (get_insert_line f) CHas (map (quoted q) (declared_markers f ++ f_new_markers f)) (f_col f)) (collect_markers q ty f acc).
 Proof.
   unfold collect_markers. destruct (negb (t_has ty || t_pure ty)); [intros H N; contradiction|].
   destruct (f_new_markers f) as [|e es] eqn:E.
@@ -93,14 +95,35 @@ Proof.
   intro H. unfold get_insert_line. destruct (f_decos f) as [|d r] eqn:E; [reflexivity|].
   apply gil_early; [exact H|discriminate].
 Qed.
+(* new contracts go below deal.inherit when it is the innermost decorator (above it they would wrap the descriptor) *)
+Lemma gil_last_inherit fl ds ln line : (forall d, In d ds -> fl <= deco_line d) -> fl <= ln -> gil fl (ds ++ [DInherit ln]) line = ln + 1.
+Proof.
+  intros Hd Hl. revert line. induction ds as [|d r IH]; intro line; cbn [app gil deco_line].
+  - assert (E : Nat.ltb ln fl = false) by (apply Nat.ltb_ge; exact Hl). rewrite E. reflexivity.
+  - assert (E : Nat.ltb (deco_line d) fl = false) by (apply Nat.ltb_ge; apply Hd; left; reflexivity). rewrite E.
+    assert (Hr : forall d', In d' r -> fl <= deco_line d') by (intros d' H; apply Hd; right; exact H).
+    destruct d as [l0 n|l0|l0]; [destruct (is_static_or_class n)| |]; apply IH; exact Hr.
+Qed.
+Theorem insert_below_inherit f ds ln :
+  f_decos f = ds ++ [DInherit ln] -> (forall d, In d ds -> f_line f <= deco_line d) -> f_line f <= ln -> get_insert_line f = ln + 1.
+Proof. intros E Hd Hl. unfold get_insert_line. rewrite E. apply gil_last_inherit; assumption. Qed.
 (* (6) the import goes to line 1 or right after an import statement / a __future__ import *)
 Theorem import_line_pos h body : 1 <= import_line h body.
 Proof.
-  unfold import_line. assert (G : forall l n, 1 <= n -> 1 <= fold_left (fun line s => match s with
-      | SImport ln _ => ln + 1 | SImportFrom ln m => if String.eqb m "__future__" then ln + 1 else line | SOther => line end) l n).
-  { induction l as [|s t IH]; intros n Hn; [exact Hn|]. cbn [fold_left]. apply IH. destruct s as [ln ns|ln m|]; [lia| |exact Hn].
+  unfold import_line. assert (G : forall l st, 1 <= fst st -> 1 <= fst (fold_left import_step l st)).
+  { induction l as [|s t IH]; intros st Hn; [exact Hn|]. cbn [fold_left]. apply IH. unfold import_step.
+    destruct (snd st); [exact Hn|]. destruct s as [ln ns|ln m|]; cbn [fst]; [lia| |exact Hn].
     destruct (String.eqb m "__future__"); lia. }
-  apply G. unfold import_start. destruct (doc_end h); [lia|destruct (shebang h); lia].
+  apply G. cbn [fst]. unfold import_start. destruct (doc_end h); [lia|destruct (shebang h); lia].
+Qed.
+(* an import below the first other statement (a function, an assignment) does not move the line: import deal stays above the decorators *)
+Theorem import_line_stops h pre rest : import_line h (pre ++ SOther :: rest) = import_line h (pre ++ [SOther]).
+Proof.
+  unfold import_line. rewrite !fold_left_app. cbn [fold_left].
+  assert (S : forall l st, snd st = true -> fold_left import_step l st = st).
+  { induction l as [|s t IH]; intros st H; [reflexivity|]. cbn [fold_left]. unfold import_step at 2. rewrite H. apply IH. exact H. }
+  rewrite S; [reflexivity|]. generalize (fold_left import_step pre (import_start h, false)). intros [n b]. unfold import_step. cbn [snd fst].
+  destruct b; reflexivity.
 Qed.
 (* without imports the line is the one after the docstring (or after the shebang) *)
 Theorem import_after_docstring h e : doc_end h = Some e -> import_line h [] = e + 1.
@@ -120,7 +143,7 @@ Proof. intro H. unfold remove_contract. apply in_map. apply in_seq. lia. Qed.
 (* ---------- witnesses ---------- *)
 (* @deal.pure over a function with a new exception and a new marker is split once: raises + has *)
 Definition pure_fn : func :=
-  {| f_line := 2; f_col := 0; f_decos := [DOther 2]; f_contracts := [{| c_cat := CPure; c_line := 2; c_last := 2; c_excs := []; c_markers := [] |}];
+  {| f_line := 2; f_col := 0; f_decos := [DOther 2]; f_contracts := [{| c_cat := CPure; c_line := 2; c_last := 2; c_excs := []; c_markers := []; c_inherited := false |}];
      f_new_excs := ["ValueError"]; f_new_markers := ["stdout"] |}.
 Definition pure_src : list string := ["import deal"; "@deal.pure"; "def f():"; "    print(1)"; "    raise ValueError"].
 Example pure_split_once :
@@ -137,14 +160,14 @@ Example double_remove_eats_def :
 Proof. split; reflexivity. Qed.
 (* with HAS disabled but PURE enabled nothing is planned for a function that only has new markers *)
 Definition has_fn : func :=
-  {| f_line := 2; f_col := 0; f_decos := [DOther 2]; f_contracts := [{| c_cat := CHas; c_line := 2; c_last := 2; c_excs := []; c_markers := ["io"] |}];
+  {| f_line := 2; f_col := 0; f_decos := [DOther 2]; f_contracts := [{| c_cat := CHas; c_line := 2; c_last := 2; c_excs := []; c_markers := ["io"]; c_inherited := false |}];
      f_new_excs := []; f_new_markers := ["stdout"] |}.
 Definition only_pure : types := {| t_raises := false; t_has := false; t_safe := false; t_pure := true; t_import := false |}.
 Example has_disabled_plans_nothing : plan "'" only_pure no_head [SImport 1 ["deal"]] [has_fn] = Some [].
 Proof. reflexivity. Qed.
 (* a decorator that spans several lines is removed completely *)
 Definition multi_fn : func :=
-  {| f_line := 2; f_col := 0; f_decos := [DOther 2]; f_contracts := [{| c_cat := CRaises; c_line := 2; c_last := 4; c_excs := ["KeyError"]; c_markers := [] |}];
+  {| f_line := 2; f_col := 0; f_decos := [DOther 2]; f_contracts := [{| c_cat := CRaises; c_line := 2; c_last := 4; c_excs := ["KeyError"]; c_markers := []; c_inherited := false |}];
      f_new_excs := ["ValueError"]; f_new_markers := [] |}.
 Definition only_raises : types := {| t_raises := true; t_has := false; t_safe := false; t_pure := false; t_import := false |}.
 Example multiline_decorator_removed :
@@ -177,17 +200,20 @@ Proof.
   destruct (Nat.ltb_spec l (c_line c + S (c_last c - c_line c))), (Nat.leb_spec l (c_line c + (c_last c - c_line c))); try reflexivity; lia.
 Qed.
 Definition hits (S : contract -> bool) (cs : list contract) (l : nat) : nat := List.length (filter (fun c => S c && in_rangeb c l) cs).
+(* the contracts whose decorator is on this function: inherited ones are never removed *)
+Definition rm_exc (c : contract) : bool := exc_cat c && negb (c_inherited c).
+Definition rm_has (c : contract) : bool := has_cat c && negb (c_inherited c).
 Lemma removes_excs_part l il col cs :
-  removes l (flat_map (fun c => if exc_cat c then remove_contract c ++ (if cat_eqb (c_cat c) CPure then [PInsertC il CHas [] col] else []) else []) cs)
-  = hits exc_cat cs l.
+  removes l (flat_map (fun c => if exc_cat c && negb (c_inherited c) then remove_contract c ++ (if cat_eqb (c_cat c) CPure then [PInsertC il CHas [] col] else []) else []) cs)
+  = hits rm_exc cs l.
 Proof.
-  induction cs as [|c t IH]; [reflexivity|]. cbn [flat_map]. rewrite removes_app, IH. unfold hits. cbn [filter].
-  destruct (exc_cat c); cbn [andb].
+  induction cs as [|c t IH]; [reflexivity|]. cbn [flat_map]. rewrite removes_app, IH. unfold hits, rm_exc. cbn [filter].
+  destruct (exc_cat c && negb (c_inherited c)); cbn [andb].
   - rewrite removes_app, removes_contract. destruct (in_rangeb c l); cbn [List.length]; destruct (cat_eqb (c_cat c) CPure); cbn; lia.
   - reflexivity.
 Qed.
 Definition excs_active (ty : types) (f : func) : bool := nonempty (f_new_excs f) && t_raises ty.
-Lemma removes_excs l ty f : removes l (mutations_excs ty f) = if excs_active ty f then hits exc_cat (f_contracts f) l else 0.
+Lemma removes_excs l ty f : removes l (mutations_excs ty f) = if excs_active ty f then hits rm_exc (f_contracts f) l else 0.
 Proof.
   unfold mutations_excs, excs_active. destruct (f_new_excs f) as [|e es] eqn:E; cbn [nonempty andb].
   - destruct (nonempty (declared_excs f)); [reflexivity|]. destruct (negb (t_safe ty || t_pure ty)); [reflexivity|].
@@ -216,14 +242,16 @@ Proof. unfold hits. cbn [filter]. destruct (S c && in_rangeb c l); reflexivity. 
 (* the markers half adds, for line l, at most the has-family contracts in range that are not already removed *)
 Lemma removes_markers_fold l il col cs acc (R : contract -> bool) :
   (forall c, In c cs -> R c = true -> existsb (pmut_eqb (PRemove (c_line c))) acc = true) ->
-  removes l (fold_left (markers_step il col) cs acc) <= removes l acc + hits (fun c => has_cat c && negb (R c)) cs l.
+  removes l (fold_left (markers_step il col) cs acc) <= removes l acc + hits (fun c => rm_has c && negb (R c)) cs l.
 Proof.
   revert acc. induction cs as [|c t IH]; intros acc HR; [unfold hits; cbn [fold_left filter List.length]; lia|]. cbn [fold_left].
   assert (Ht : forall acc', (forall x, existsb (pmut_eqb (PRemove x)) acc = true -> existsb (pmut_eqb (PRemove x)) acc' = true) ->
                forall c', In c' t -> R c' = true -> existsb (pmut_eqb (PRemove (c_line c'))) acc' = true).
   { intros acc' Hm c' Hin Hr. apply Hm. apply HR; [right; exact Hin|exact Hr]. }
-  rewrite hits_cons. unfold markers_step at 2. destruct (has_cat c) eqn:Eh; cbn [negb andb].
-  - destruct (existsb (pmut_eqb (PRemove (c_line c))) acc) eqn:Ex.
+  rewrite hits_cons. unfold markers_step at 2. change (rm_has c) with (has_cat c && negb (c_inherited c)). destruct (has_cat c) eqn:Eh; cbn [negb andb].
+  - destruct (c_inherited c) eqn:Ei; cbn [negb andb].
+    { eapply Nat.le_trans; [apply IH; apply Ht; auto|]. lia. }
+    destruct (existsb (pmut_eqb (PRemove (c_line c))) acc) eqn:Ex.
     + eapply Nat.le_trans; [apply IH; apply Ht; intros x Hx; rewrite has_remove_remove_first; [exact Hx|intros y; discriminate]|].
       rewrite removes_remove_first by reflexivity. lia.
     + assert (Rc : R c = false).
@@ -243,9 +271,9 @@ Qed.
 Lemma hits_le_all A cs l : hits A cs l <= hits (fun _ => true) cs l.
 Proof. induction cs as [|c t IH]; [unfold hits; cbn; lia|]. rewrite !hits_cons. destruct (A c); cbn [andb]; destruct (in_rangeb c l); lia. Qed.
 Lemma excs_has_first_line ty f c :
-  excs_active ty f = true -> In c (f_contracts f) -> exc_cat c = true -> existsb (pmut_eqb (PRemove (c_line c))) (mutations_excs ty f) = true.
+  excs_active ty f = true -> In c (f_contracts f) -> rm_exc c = true -> existsb (pmut_eqb (PRemove (c_line c))) (mutations_excs ty f) = true.
 Proof.
-  unfold excs_active, mutations_excs. intros Ha Hin Hc. destruct (f_new_excs f) as [|e es]; [discriminate|]. cbn [nonempty andb] in Ha. rewrite Ha. cbn [negb].
+  unfold excs_active, mutations_excs, rm_exc. intros Ha Hin Hc. destruct (f_new_excs f) as [|e es]; [discriminate|]. cbn [nonempty andb] in Ha. rewrite Ha. cbn [negb].
   apply existsb_exists. exists (PRemove (c_line c)). split; [|cbn; apply Nat.eqb_refl].
   apply in_or_app. left. apply in_flat_map. exists c. split; [exact Hin|]. rewrite Hc. apply in_or_app. left.
   unfold remove_contract. cbn [seq map]. left. reflexivity.
@@ -256,9 +284,9 @@ Theorem planner_meets_w1 q ty f l :
   disjoint_ranges (f_contracts f) -> removes l (collect q ty [] f) <= 1.
 Proof.
   intro Hd. specialize (Hd l). unfold collect. cbn [app].
-  assert (HE : removes l (mutations_excs ty f) <= hits (fun c => exc_cat c && excs_active ty f) (f_contracts f) l).
+  assert (HE : removes l (mutations_excs ty f) <= hits (fun c => rm_exc c && excs_active ty f) (f_contracts f) l).
   { rewrite removes_excs. destruct (excs_active ty f).
-    - unfold hits. rewrite (filter_ext (fun c => exc_cat c && true && in_rangeb c l) (fun c => exc_cat c && in_rangeb c l)); [lia|].
+    - unfold hits. rewrite (filter_ext (fun c => rm_exc c && true && in_rangeb c l) (fun c => rm_exc c && in_rangeb c l)); [lia|].
       intro c. rewrite andb_true_r. reflexivity.
     - lia. }
   unfold collect_markers. destruct (negb (t_has ty || t_pure ty)).
@@ -266,13 +294,13 @@ Proof.
   destruct (f_new_markers f) as [|m ms].
   { destruct (has_contract f [CPure; CHas]).
     - eapply Nat.le_trans; [exact HE|]. eapply Nat.le_trans; [apply hits_le_all|exact Hd].
-    - rewrite removes_app. cbn. eapply Nat.le_trans; [|exact Hd]. eapply Nat.le_trans; [|apply (hits_le_all (fun c => exc_cat c && excs_active ty f))]. lia. }
+    - rewrite removes_app. cbn. eapply Nat.le_trans; [|exact Hd]. eapply Nat.le_trans; [|apply (hits_le_all (fun c => rm_exc c && excs_active ty f))]. lia. }
   destruct (negb (t_has ty)).
   { eapply Nat.le_trans; [exact HE|]. eapply Nat.le_trans; [apply hits_le_all|exact Hd]. }
   rewrite removes_app. cbn [removes filter is_rm List.length]. rewrite Nat.add_0_r.
   eapply Nat.le_trans.
-  - apply (removes_markers_fold l _ _ (f_contracts f) (mutations_excs ty f) (fun c => exc_cat c && excs_active ty f)).
+  - apply (removes_markers_fold l _ _ (f_contracts f) (mutations_excs ty f) (fun c => rm_exc c && excs_active ty f)).
     intros c Hin Hr. apply andb_true_iff in Hr. destruct Hr as [Hc Ha]. apply excs_has_first_line; assumption.
   - eapply Nat.le_trans; [|exact Hd]. eapply Nat.le_trans; [apply Nat.add_le_mono_r; exact HE|].
-    apply hits_disjoint_sum. intro c. destruct (exc_cat c && excs_active ty f); cbn; [rewrite andb_false_r|]; reflexivity.
+    apply hits_disjoint_sum. intro c. destruct (rm_exc c && excs_active ty f); cbn; [rewrite andb_false_r|]; reflexivity.
 Qed.
